@@ -558,6 +558,31 @@ impl Col for Opt {
     }
 }
 
+/// Larger than a page (5000 bytes, inline): rows of more than 4 KiB.
+#[derive(Clone)]
+pub struct Big(pub [u8; 5000]);
+
+impl Col for Big {
+    const TAG: u32 = 33;
+    fn make(uid: u32, val: u32) -> Self {
+        let m = mix(uid, Self::TAG, val);
+        let mut b = [0u8; 5000];
+        for (i, x) in b.iter_mut().enumerate() {
+            *x = (m >> (8 * (i % 8))) as u8 ^ (i as u8).wrapping_mul(31);
+        }
+        Big(b)
+    }
+    fn digest(&self) -> u64 {
+        xxhash_rust::xxh3::xxh3_64(&self.0)
+    }
+    fn expect(uid: u32, val: u32) -> u64 {
+        Self::make(uid, val).digest()
+    }
+    fn set(&mut self, uid: u32, val: u32) {
+        *self = Self::make(uid, val);
+    }
+}
+
 #[derive(Clone)]
 pub struct Vek(pub Vec<u8>);
 
